@@ -208,7 +208,27 @@ func c10Check(c c10Case) string {
 	return ""
 }
 
+// mixedIndentChars: some indented row starts with a tab and another one with a space.
+func mixedIndentChars(doc []byte) bool {
+	tab, space := false, false
+	for _, l := range bytes.Split(doc, []byte("\n")) {
+		if len(l) == 0 {
+			continue
+		}
+		switch l[0] {
+		case '\t':
+			tab = true
+		case ' ':
+			space = true
+		}
+	}
+	return tab && space
+}
+
 func c10Excluded(c c10Case) string {
+	if known("C10", "massive-mixed-indent-chars") && mixedIndentChars(c.Doc) {
+		return "massive-mixed-indent-chars"
+	}
 	if known("C10", "massive-mixed-roots") && mixedRoots(c.Doc) {
 		return "massive-mixed-roots"
 	}
@@ -255,6 +275,28 @@ func TestC10Known(t *testing.T) {
 		col.eval(false, 0, "known-probe")
 		if msg := c10Check(c); msg != "" {
 			col.knownFinding("key=massive-mixed-roots a list-item root before the first # heading is parsed with the shared parser's heading flag: '- x\\n# r\\n- a' fails with 'nil stack' in massive mode when the heading block is parsed first, simple mode prints it")
+		}
+	}
+	if known("C10", "massive-mixed-indent-chars") {
+		var sb strings.Builder
+		for r := 0; r < 6; r++ {
+			ind := "\t\t" // two tabs per level in one block, two spaces in the next: the same unit, another character
+			if r%2 == 1 {
+				ind = "  "
+			}
+			fmt.Fprintf(&sb, "- r%d\n", r)
+			for i := 0; i < 150; i++ {
+				fmt.Fprintf(&sb, "%s- n%d\n", ind, i)
+			}
+		}
+		// every worker waits a little after taking its block, so that all six blocks are parsed at the same time
+		c := c10Case{Doc: []byte(sb.String()), Op: "text", Roots: 6, Sched: ops.Sched{Hook: map[string]ops.HookAct{"gen.recv": {Action: "sleep", N: 5000}}}}
+		col.eval(false, 0, "known-probe")
+		for try := 0; try < 30; try++ { // schedule dependent: a few attempts
+			if msg := c10Check(c); msg != "" {
+				col.knownFinding("key=massive-mixed-indent-chars root blocks indented with tabs in one block and spaces in another are accepted by simple mode but rejected ('incorrect input format') by massive mode when the blocks are parsed interleaved (shared parser state)")
+				break
+			}
 		}
 	}
 	if known("C10", "massive-mkdir-not-atomic") {
@@ -364,6 +406,16 @@ func c10Gen() *rapid.Generator[c10Case] {
 		case 2:
 			c.Doc, _ = c12Mutate(t, []byte(model.Join(lines)))
 			c.Origin = "mutated"
+		case 3:
+			// every root block consistently indented, but with its own unit / indent character (malformed as a document)
+			var sb strings.Builder
+			for _, r := range f {
+				rsp := genSpelling(false).Draw(t, "rootSpelling")
+				rsp.Blank, rsp.Trail, rsp.NoFinalN = nil, 0, false
+				sb.WriteString(model.Spell(model.Forest{r}, rsp))
+			}
+			c.Doc = []byte(sb.String())
+			c.Origin = "per-root-units"
 		default:
 			c.Doc = []byte(model.Join(lines))
 		}
